@@ -74,7 +74,11 @@ impl Exchange {
             BodyPlan::Bare => {}
             BodyPlan::Length(d) => head.fields.push(Field::new("Content-Length", d.len().to_string().as_bytes())),
             BodyPlan::LengthZero => head.fields.push(Field::new("Content-Length", b"0")),
-            BodyPlan::Chunked(..) => head.fields.push(Field::new("Transfer-Encoding", b"chunked")),
+            BodyPlan::Chunked(..) => {
+                // the coding is announced in one of several legal spellings (lists, optional blanks and tabs, case)
+                let spelling: &[u8] = [&b"chunked"[..], b"chunked", b"gzip,\tchunked", b"Chunked", b"gzip, chunked", b"chunked", b"deflate ,\t chunked"][(head.status as usize + head.fields.len() + self.req_body.len()) % 7];
+                head.fields.push(Field::new("Transfer-Encoding", spelling))
+            }
         }
         let get = |name: &str| head.fields.iter().find(|f| f.name.eq_ignore_ascii_case(name)).map(|f| f.value.clone());
         let cl = get("content-length");
@@ -427,7 +431,12 @@ pub fn gen_resp_head(rng: &mut Rng, nfields: usize, force_3xx_location: bool) ->
         if b == a {
             b = (a + 1) % nfields;
         }
-        let (n1, v1, n2, v2): (&str, &[u8], &str, &[u8]) = match rng.below(9) {
+        let (n1, v1, n2, v2): (&str, &[u8], &str, &[u8]) = match rng.below(12) {
+            // (a length padded with zeros to a fixed width; well-known tokens in other than lower case: handed on
+            // as they stand)
+            9 => ("Content-Length", b"000000000000000000012", "X-Width", b"21"),
+            10 => ("Connection", b"Keep-Alive", "Transfer-Encoding", b"Chunked"),
+            11 => ("Accept", b"*/*", "TE", b"GZIP"),
             // (values that are not text - obs-text is legal field content - and an Expect field: a parser hands
             // them on like any other field, whatever the client makes of them)
             6 => ("Transfer-Encoding", b"gz\xefp", "Connection", b"cl\xf6se"),
